@@ -59,6 +59,9 @@ def build_tpi(rng, pair, names=("a", "b")):
         subs.append(s); mots.append(m)
     B1 = rng.normal(size=3) * float(rng.random() < 0.6)
     B2 = rng.normal(size=3) * float(rng.random() < 0.6)
+    if rng.random() < 0.3:
+        # attachment points on a body axis / in a coordinate plane (exact zero components)
+        B1, B2 = gen.on_axis_or_plane(rng, B1), gen.on_axis_or_plane(rng, B2)
     # point masses ignore offsets in r_OP_q etc. only partly; keep offsets zero for them
     if pair[0] == "point_mass":
         B1 = np.zeros(3)
